@@ -683,6 +683,8 @@ func (d *driver) spawn(extraEnv ...string) (*proc, error) {
 		return nil, err
 	}
 	cmd := exec.Command(os.Args[0], "-test.run", "^TestCheck$", "-test.timeout", "0")
+	// the worker must not outlive its driver (an orphan would burn CPU forever on a hanging input)
+	cmd.SysProcAttr = &syscall.SysProcAttr{Pdeathsig: syscall.SIGKILL}
 	cmd.Env = append(os.Environ(), envWorker+"=1", envMark+"="+markPath, envTier+"="+d.tier, "GOMAXPROCS=2", "GOTRACEBACK=all")
 	cmd.Env = append(cmd.Env, extraEnv...)
 	cmd.ExtraFiles = []*os.File{pw}
